@@ -123,6 +123,13 @@ def trace_run_configs(ctx):
                             chi=rng.choice([2, 4, 8, 16]), sweeps=rng.choice([2, 3] if bc == 'finite' else [2, 4]),
                             check=rng.choice([1, 1, 2]), ext=rng.choice([0.0, 0.0, 0.15, 0.4]),
                             start_env=rng.choice([1, 0, 2]), seed=rng.randrange(10 ** 6), rep=rep))
+        # excited-state searches (orthogonal_to): the environments <psi|psi0> are traced as well
+        combos = list(itertools.product((1, 2), ('none', 'sub', 'dm'), (False, True)))
+        rng.shuffle(combos)
+        for n, mix, combine in (combos[:4] if quick else combos):
+            out.append(dict(n=n, bc='finite', mix=mix, combine=combine, L=rng.choice([4, 5, 6]), model=rng.choice(['tfi', 'xxz']),
+                            chi=rng.choice([4, 8, 16]), sweeps=rng.choice([2, 3]), check=1, ext=0.0, start_env=1,
+                            seed=rng.randrange(10 ** 6), rep=rep, ortho=True))
     return out
 
 
@@ -149,12 +156,20 @@ def run_engine_traced(rec, rc):
         hi = t.L - 1 if engine.psi.finite else t.L
         return [(rng.choice('LR'), rng.randint(0, hi), rng.random() < 0.6)]
     rec.ext_plan = ext_plan
+    kwargs = {}
+    if rc.get('ortho'):      # ground state first (not recorded), then the search orthogonal to it
+        psi0 = psi.copy()
+        with warnings.catch_warnings():
+            warnings.simplefilter('ignore')
+            dmrg.TwoSiteDMRGEngine(psi0, M, dict(mixer=True, max_sweeps=6, trunc_params=dict(chi_max=16, svd_min=1e-12),
+                                                 max_trunc_err=None)).run()
+        kwargs['orthogonal_to'] = [psi0]
     rec.armed = True
     eng = None
     try:
         with warnings.catch_warnings():
             warnings.simplefilter('ignore')
-            eng = cls(psi, M, opts)
+            eng = cls(psi, M, opts, **kwargs)
             E, _ = eng.run()
         exc = None
     except core.MachineryError:
@@ -272,7 +287,7 @@ def stage_trace(ctx):
     t0 = time.time()
     try:
         for rc in trace_run_configs(ctx):
-            rc['key'] = '%(n)d-%(bc)s-%(mix)s-%(combine)s-L%(L)d-%(model)s-chi%(chi)d-s%(sweeps)d-c%(check)d-%(seed)d' % rc
+            rc['key'] = '%(n)d-%(bc)s-%(mix)s-%(combine)s-L%(L)d-%(model)s-chi%(chi)d-s%(sweeps)d-c%(check)d-%(seed)d' % rc + ('-ortho' if rc.get('ortho') else '')
             tid_before = rec.ntraces
             E, eng, exc = run_engine_traced(rec, rc)
             nrun += 1
@@ -342,16 +357,22 @@ def stage_trace(ctx):
     ctx.notes['trace_runs'] = nrun
     ctx.notes['trace_events'] = len(events)
     ctx.notes['trace_record_wall_s'] = round(time.time() - t0, 1)
+    events.sort(key=lambda e: e['tid'])        # (stable) the events of an ortho environment are interleaved with the main ones
+    sub_tids = {e['tid'] for e in events if e['ev'] == 'begin' and e.get('engine') == 'ortho_to_env'}
     tdvp_ev = [e for e in events if e['tid'] in tdvp_tids and e['tid'] not in aborted]
-    regular = [e for e in events if e['tid'] not in aborted and e['tid'] not in tdvp_tids]
+    sub_ev = [e for e in events if e['tid'] in sub_tids and e['tid'] not in aborted]
+    regular = [e for e in events if e['tid'] not in aborted and e['tid'] not in tdvp_tids and e['tid'] not in sub_tids]
     acc = validate_traces(ctx, regular, runs_by_tid, 'dmrg')
     acc += validate_traces(ctx, tdvp_ev, runs_by_tid, 'tdvp', spec='EnvTraceSpec', invariants=ENV_INV)
+    # environments of excited-state searches: environment primitives + FreshEnvs / AgeRule / BoundaryKept as the judge
+    acc += validate_traces(ctx, sub_ev, runs_by_tid, 'ortho-envs', spec='EnvTraceSpec', invariants=ENV_INV)
+    ctx.notes['ortho_env_traces'] = len(sub_tids)
     # second reading: environment primitives only, the invariants (FreshEnvs, ...) are the judge
     acc_env = validate_traces(ctx, regular, runs_by_tid, 'dmrg', spec='EnvTraceSpec', count=False)
     ctx.notes['traces_accepted_env_level'] = acc_env
-    for tid in sorted(aborted)[:4]:
+    for tid in sorted(aborted)[:6]:
         ev = [e for e in events if e['tid'] == tid]
-        if ev and tid in tdvp_tids:
+        if ev and (tid in tdvp_tids or tid in sub_tids):
             validate_traces(ctx, ev, runs_by_tid, 'tdvp-aborted-%d' % tid, spec='EnvTraceSpec', invariants=ENV_INV, count=False)
         elif ev:
             validate_traces(ctx, ev, runs_by_tid, 'dmrg-aborted-%d' % tid, count=False)
